@@ -1,4 +1,6 @@
 """C07 - every strict prefix of a valid frame raises UnmarshalingException."""
+import struct
+
 from .. import canon
 from ..gen import faults, wire
 from . import common
@@ -31,11 +33,27 @@ def cases(shard, rnd):
            'kind': 'heartbeat', 'cuts': None}
     yield {'frame': bytes(wire.protocol_header(rnd).data),
            'kind': 'protocol', 'cuts': None}
+    # payload-less frames of every type (a decoder that accepts one must
+    # still refuse its prefixes)
+    for t, kind in ((1, 'method'), (2, 'header'), (3, 'body'),
+                    (8, 'heartbeat')):
+        for ch in (0, 1, 65535):
+            yield {'frame': struct.pack('>BHI', t, ch, 0) + b'\xce',
+                   'kind': kind, 'cuts': None}
     for _ in range(shard['big']):
         for n in (4088, 131064):
             fr = wire.body_frame(rnd, n)
             yield {'frame': bytes(fr.data), 'kind': 'body',
                    'cuts': _sampled(fr, rnd)}
+        # frames larger than the default maximum frame size are valid too
+        # (frame-max is negotiated and may be larger or unlimited)
+        for n in (131065, 131073, 200000) + ((1 << 20, 3000000)
+                                             if shard['big'] > 1 else ()):
+            fill = rnd.choice([0x00, 0xCE, 0x41])
+            pts = sorted(set([0, 1, 6, 7, 8, 9, n // 2, n, n + 6, n + 7] +
+                             [rnd.randrange(n + 8) for _ in range(24)]))
+            yield {'gen': ['body', n, rnd.randint(0, 65535), fill],
+                   'kind': 'body', 'cuts': pts}
         for fb, _ in faults.big_worst_cases(rnd, 4000):
             yield {'frame': fb, 'kind': 'method' if fb[0] == 1 else 'body',
                    'cuts': sorted(set(
@@ -68,8 +86,15 @@ def _cut_class(k, n):
     return '8..len-2'
 
 
+def _frame_of(case):
+    if 'gen' in case and case.get('gen'):
+        _, n, ch, fill = case['gen']
+        return struct.pack('>BHI', 3, ch, n) + bytes([fill]) * n + b'\xce'
+    return case['frame']
+
+
 def run_case(case, rec):
-    data = case['frame']
+    data = _frame_of(case)
     n = len(data)
     whole = common.lib_unmarshal(data)
     if not whole.ok:
@@ -84,8 +109,12 @@ def run_case(case, rec):
         rec.nt(dig ^ (k * 0x9E3779B97F4A7C15 & (2**64 - 1)))
         cls = _cut_class(k, n)
         rec.seen('cut_classes', '%s@%s' % (case['kind'], cls))
-        wit = {'frame': data if n <= 4096 else data[:k + 1], 'kind':
-               case['kind'], 'cuts': [k]}
+        if n > 131080:
+            rec.count('prefixes_of_frames_above_default_frame_max')
+        if case.get('gen'):
+            wit = {'gen': case['gen'], 'kind': case['kind'], 'cuts': [k]}
+        else:
+            wit = {'frame': data, 'kind': case['kind'], 'cuts': [k]}
         if u.ok:
             consumed = u.value[0] if isinstance(u.value, tuple) else None
             mech = 'prefix-returned-frame:%s:cut-%s' % (case['kind'], cls)
@@ -123,6 +152,8 @@ def gates(m, tier):
             if '%s@%s' % (k, c) not in cc:
                 out.append('cut class %s of %s frames never exercised'
                            % (c, k))
+    if not m.counters.get('prefixes_of_frames_above_default_frame_max'):
+        out.append('no frame larger than the default frame-max was cut')
     if m.counters.get('complete_frame_not_accepted', 0) > \
             0.2 * max(1, m.evaluations / 50):
         out.append('many complete frames were not accepted (%d)'
